@@ -218,10 +218,18 @@ def run_entry_points(rec) -> dict:
         v = e.get_value_c(database=d, prepare_ids=True, number_of_draws=5)
         return [float(x) for x in v]
 
+    def value_prepared():
+        # the two-step form: the formula is prepared for the data first, then evaluated as it is
+        d = database(panel)
+        e = Builder(rec['ops']).build(rec['root'])
+        e.prepare(d, 5)
+        v = e.get_value_c(database=d, prepare_ids=False, number_of_draws=5)
+        return [float(x) for x in v]
+
     out = {}
-    eps = (('BIOGEME', biogeme_ctor), ('BIOGEME(dict)', biogeme_dict_ctor), ('BIOGEME(dict:loglike)', biogeme_dict_ctor2)) if rec['estimation'] else (('get_value_c', value),)
-    if rec.get('light') and rec['estimation']:
-        eps = eps[:2]       # the second spelling of the key is tried on a sample only
+    eps = (('BIOGEME', biogeme_ctor), ('BIOGEME(dict)', biogeme_dict_ctor), ('BIOGEME(dict:loglike)', biogeme_dict_ctor2)) if rec['estimation'] else (('get_value_c', value), ('prepare + get_value_c', value_prepared))
+    if rec.get('light'):
+        eps = eps[:2] if rec['estimation'] else eps[:1]      # the second spelling of the key / the two-step form: on a sample only
     # one child for all entry points as long as only the library's own refusals (Python level) occur; an error
     # of any other kind may leave the engine in its sticky error state: then every entry point gets its own child
     def together():
